@@ -60,3 +60,14 @@ Definition chk_branch_key (c : list pystr * res pystr) : bool := res_eqb str_eqb
 Definition chk_unpack_branch_key (c : pystr * list pystr) : bool :=
   list_eqb str_eqb (unpack_branch_key (fst c)) (snd c).
 Definition chk_py_int (c : pystr * res Z) : bool := res_eqb Z.eqb (py_int (fst c)) (snd c).
+
+(* ---- session identifiers: Database.encrypted_branch_id / decrypt_branch_id without the Fernet layer:
+   plaintext = lv_pack(rnd, branch_key( *path));  path = unpack_branch_key(lv_unpack(plain)[1]) ---- *)
+Definition sid_plain (rnd : pystr) (path : list pystr) : res pystr :=
+  k <- branch_key path ;; Ok (lv_pack [rnd; k]).
+Definition sid_path (plain : pystr) : res (list pystr) :=
+  l <- lv_unpack plain ;;
+  match l with _ :: k :: _ => Ok (unpack_branch_key k) | _ => Err IndexError end.
+Definition chk_sid (c : pystr * list pystr * pystr) : bool :=
+  let '(rnd, path, plain) := c in
+  res_eqb str_eqb (sid_plain rnd path) (Ok plain) && res_list_str_eqb (sid_path plain) (Ok path).
